@@ -20,6 +20,7 @@ type Profile struct {
 	SmallOnly   bool // only the small dense domain (joins, histories that need hits)
 	NoSentinels bool // exclude the engine's in-band sentinel values (MaxInt32, MinInt32, +-MaxFloat32, sentinel strings)
 	NoSentinelStr bool // exclude only the sentinel strings (known finding KF-C06-sentinel-strings)
+	VeryLongStr   bool // also generate 1300-3900 byte strings (documented maximum "a little less than 4KB")
 	NoNullIndexed bool // NULL only in columns without an index (known finding KF-C06-null-in-indexed-column)
 	OnExcluded  func(name string) // called when a draw was redirected because of a known-finding exclusion
 }
@@ -109,6 +110,10 @@ func genStr(t *rapid.T, p Profile, l string) string {
 		s = rapid.SampledFrom([]string{"SamehadaDBInfMaxValue", "SamehadaDBInfMinValue"}).Draw(t, l)
 	default:
 		n := rapid.IntRange(25, 200).Draw(t, l+"n")
+		if p.VeryLongStr && rapid.IntRange(0, 3).Draw(t, l+"vl") == 0 {
+			n = rapid.SampledFrom([]int{1300, 2000, 3900}).Draw(t, l+"vln")
+			max = 4000
+		}
 		c := "abc"[rapid.IntRange(0, 2).Draw(t, "c")]
 		s = strings.Repeat(string(c), n-1) + string("xyz"[rapid.IntRange(0, 2).Draw(t, "e")])
 	}
